@@ -838,6 +838,7 @@ func TestC28(t *testing.T) {
 			if try > 0 && !time.Now().Before(budget) {
 				break
 			}
+			valid = false
 			j := startJitter()
 			res = runHistory(t, h.name, h.acts)
 			worst := j.end()
@@ -846,7 +847,21 @@ func TestC28(t *testing.T) {
 			}
 			if worst <= jitterLimit {
 				valid = true
-				break
+				// a wait that ran into its deadline may be the load or the implementation:
+				// run the history again; what persists over three attempts is emitted as observed
+				timedOut := false
+				for _, sl := range res.Slots {
+					switch {
+					case strings.Contains(sl.Note, "nobody-active"), strings.Contains(sl.Note, "watch-not-proved"),
+						strings.Contains(sl.Note, "no-takeover"), strings.Contains(sl.Note, "stop-timeout"):
+						timedOut = true
+					}
+				}
+				if !timedOut || try == 2 {
+					break
+				}
+				r.Count("retry_wait_deadline")
+				continue
 			}
 			r.Count("retry_overloaded")
 		}
